@@ -41,6 +41,10 @@ class C18(CheckBase):
         return w
 
     def setup(self, ctx, world):
+        # not the first initialisation of the process: an application may well have used the library without locking before (state kept in
+        # singletons across C_Finalize must not leak into the locking configuration of the next C_Initialize)
+        W.ok(ctx.p.Initialize(), "C_Initialize without locking")
+        W.ok(ctx.p.Finalize(), "C_Finalize")
         W.ok(ctx.p.Initialize("sched"), "C_Initialize with scheduler callbacks")
         return None
 
@@ -367,6 +371,9 @@ def _task(task):
                 if r.get("serr"):
                     V("C18|%s|%s" % (name, r["serr"].split(":")[0].replace(" ", "-") if not r["serr"].startswith("mutex protocol") else r["serr"].replace(" ", "-")), {"schedule": list(pref), "error": r["serr"]})
                     return r
+                if not r.get("locks") and r.get("threads"):
+                    # locking was requested with application callbacks, calls on shared structures ran, and the library did not lock once
+                    V("C18|%s|library-made-no-mutex-callback-although-locking-was-requested" % name, {"schedule": list(pref), "mutexes_created": r.get("mutexes")})
                 if r.get("asan"):
                     kind, log = asan_summary(sh)
                     if True:
